@@ -160,6 +160,12 @@ def gen_plain_literal(cs, kind, restrict, gen=None):
     body = gen_body(cs, q, raw, kind == 'bytes', restrict)
     if kind == 'bytes':
         body = ''.join(ch for ch in body if ord(ch) < 128 or ch == NL)
+    if len(q) == 3:
+        # pieces may line up to the closing quote sequence: break such runs
+        while q in body:
+            body = body.replace(q, q[0] * 2 + 'z' + q[0], 1)
+        if body.endswith(q[0]):
+            body += 'z'
     return prefix + q + body + q
 
 
